@@ -11,6 +11,7 @@ class Ty:
 
 
 Int, Real, Bool = Ty("int"), Ty("real"), Ty("bool")
+Float = Ty("float")    # a Python float that may be NaN (datatype nan | fin(real)); plain Real is used where NaN is impossible
 Obj = Ty("obj")      # an opaque object (e.g. `self` of a method that does not use it)
 
 
@@ -18,8 +19,8 @@ def Arr(elem, ndim=1):
     return Ty("arr", elem.kind, ndim)
 
 
-def List(elem):
-    return Ty("list", elem.kind, 1)
+def List(elem, ndim=1):
+    return Ty("list", elem.kind, ndim)
 
 
 
@@ -35,7 +36,11 @@ class Contract:
     def __init__(self, key, props, params, requires=None, ensures=None, modifies=(), loops=None, ghost=None,
                  returns=None, raises=None, call_ghost=None, gen=None, notes="", obligations_for=None,
                  assumed=None, after_loop=None, hints=None, rt_only=None, ghost_vars=None, ghost_after=None,
-                 exit_hints=None, vec_counts=None, after_assign=None, abstract_mul=False, entry_hints=None):
+                 exit_hints=None, vec_counts=None, after_assign=None, abstract_mul=False, entry_hints=None,
+                 unroll=None, fields=None, fixed=None):
+        self.unroll = dict(unroll or {})        # {loop ordinal: literal trip count} (checked by an unwinding assertion)
+        self.fields = dict(fields or {})        # {"obj.attr": type} attributes of object parameters read by the function
+        self.fixed = dict(fixed or {})          # {param: literal} verify the function for this literal value of a parameter
         self.entry_hints = list(entry_hints or [])     # lemma calls made at function entry
         # vec_counts: [(spec name, [arg exprs])] for the count_nonzero calls of the function, in source order
         self.vec_counts = list(vec_counts or [])
